@@ -56,7 +56,7 @@ CHECKS = {
         ],
     },
     "C14": {
-        "level_text": 'Every descriptor path to a search-attribute container (typed and bare-map form, through event blobs) in both services with generated key sets and payloads: AdminService traffic must equal the reference key renaming with values untouched; WorkflowService traffic must be byte-identical and the translator must not match the method.',
+        "level_text": 'Every descriptor path to a search-attribute container (typed and bare-map form, through event blobs) in both services with generated key sets and payloads: AdminService traffic must equal the reference key renaming with values untouched; WorkflowService traffic must be byte-identical and the translator must not match the method; direction rules on really assembled cluster connections.',
         "technique": 'descriptor-driven path enumeration + random key sets (rapid), differential oracle; exclusion checked per WorkflowService method',
         "level": "exploration",
         "assumptions": [
@@ -118,7 +118,7 @@ CHECKS = {
         ],
     },
     "C20": {
-        "level_text": "Histories of stream opens with arbitrary cluster/shard-id metadata (exhaustive boundary values per key and mode, random int32/int64/malformed/missing/duplicated values) followed by well-formed opens, through the real stream handler wired to a real ReplicationStreamObserver; after every open the observer lock must be free (TryLock, deterministic), nothing may stay listed or registered, and follow-ups must be served.",
+        "level_text": "Histories of stream opens with arbitrary cluster/shard-id metadata (exhaustive boundary values per key and mode, random int32/int64/malformed/missing/duplicated values) followed by well-formed opens, through the real stream handler wired to a real ReplicationStreamObserver; after every open the observer lock must be free (TryLock, deterministic), nothing may stay listed or registered, and follow-ups must be served; plus real goroutines opening and ending streams in parallel across the growth thresholds.",
         "technique": "boundary-value enumeration + random histories (rapid) with a deterministic invariant oracle (lock free, bookkeeping empty, follow-up served)",
         "level": "exploration",
         "assumptions": [
@@ -134,11 +134,12 @@ CHECKS = {
         ],
     },
     "C06": {
-        "level_text": "Fault enumeration over the real handleStream/StreamForwarder in a virtual-time bubble: generated bidirectional message scripts with stalls and in-flight bursts, one termination event of each of 10 kinds at every position of the script (systematic part) and at random positions; prefix/completeness/ending-together invariants plus goroutine-leak detection at bubble exit.",
+        "level_text": "Fault enumeration over the real handleStream/StreamForwarder in a virtual-time bubble: generated bidirectional message scripts with stalls and in-flight bursts, one termination event of each of 10 kinds at every position of the script (systematic part) and at random positions; prefix/completeness/ending-together invariants plus goroutine-leak detection at bubble exit; overlapping streams for one shard pair (shared process-wide bookkeeping) under a real-time lock watchdog.",
         "technique": "fault-position enumeration over generated scripts (rapid) with history invariants; virtual time via testing/synctest",
         "level": "fault_enumeration",
         "assumptions": [
-            "fake streams follow gRPC's contract: Recv/Send fail once the stream context is cancelled; the server stream dies when the handler returns; a stalled consumer resumes 1 virtual second after the termination event (a peer that never reads again keeps the stream legitimately open)",
+            "completeness of a direction is not demanded when the source face is stalled at the moment the source ends (the forwarder learns of the end through its blocked Send failing and stops at once)",
+            "fake streams follow gRPC's contract: Recv/Send fail once the stream context is cancelled; on client streams a Send blocked on flow control returns io.EOF once the peer's final status has arrived; the server stream dies when the handler returns; a stalled consumer resumes 1 virtual second after the termination event (a peer that never reads again keeps the stream legitimately open)",
             "testing/synctest virtual clock and durable-blocking detection",
         ],
         "parts": [
@@ -185,7 +186,7 @@ CHECKS = {
         "technique": "stateful (model-based) property-based testing with rapid over a simulated deployment in virtual time; reference model of Temporal's receiver; history invariant oracle",
         "level": "exploration",
         "assumptions": [
-            "routing world = one proxy instance, real streamRouting per stream, scripted fake streams (gRPC contract: Recv/Send fail after the stream context is cancelled; CloseSend makes a well-behaved peer end the stream), virtual time (testing/synctest); schedules are explored at the granularity of stream API calls, channel hand-offs and timers",
+            "routing world = one proxy instance (one history in four: 2-3 instances with real intra-proxy managers connected by real gRPC over in-memory pipes; the harness plays memberlist by delivering real-format announcements and state snapshots and calling ReconcilePeerStreams), real streamRouting per stream, scripted fake streams (gRPC contract: Recv/Send fail after the stream context is cancelled; CloseSend makes a well-behaved peer end the stream), virtual time (testing/synctest); schedules are explored at the granularity of stream API calls, channel hand-offs and timers",
             "sources behave like Temporal's sender: strictly increasing task ids, RawTaskInfo{NamespaceId,WorkflowId,TaskId==SourceTaskId} always set, one non-decreasing exclusive-high-watermark sequence per stream",
             "targets behave like Temporal's receiver: a port of ExecutableTaskTrackerImpl (server v1.31.2) generates their acknowledgements",
         ],
@@ -230,7 +231,8 @@ CHECKS = {
         "technique": "fault-position enumeration + stateful property-based testing (rapid) in virtual time; cross-incarnation history invariant; known-finding signatures",
         "level": "fault_enumeration",
         "assumptions": [
-            "routing world as in C01 (real streamRouting, scripted fakes, virtual time, Temporal sender/receiver models)",
+            "routing world as in C01 (real streamRouting, scripted fakes, virtual time, Temporal sender/receiver models; also several instances, with target streams that move between instances)",
+            "known-finding signature D2b applies to a never-delivered task only if it can have been queued on a target incarnation that died (not if it arrived while the dying sender was parked with its channel closed, nor if every earlier incarnation had completely finished and no later one ended)",
             "a re-connected source resumes from the highest low watermark it was ever sent and re-sends from there (what a Temporal source persists); a re-connected target starts with a fresh tracker",
             "a broken stream is ended the way gRPC ends it: handler returned => server stream dead; peers end streams the proxy half-closes",
         ],
@@ -242,11 +244,11 @@ CHECKS = {
         ],
     },
     "C08": {
-        "level_text": "Stateful exploration of overlapping stream incarnations in the routing world with the harness owning the order of old-cleanup vs successor-registration at the stream boundary and at two guarded schedule points inside the code (vfYield hooks); registry-identity, delivery, no-escaped-panic and clean-shutdown oracles.",
+        "level_text": "Stateful exploration of overlapping stream incarnations in the routing world with the harness owning the order of old-cleanup vs successor-registration at the stream boundary, at two guarded schedule points inside the code (vfYield hooks) and at five log statements of the registry functions (hook logger as schedule point); registry-identity, delivery, no-escaped-panic and clean-shutdown oracles. Further parts: intra-proxy sender side (peer re-opens its stream), intra-proxy receiver side (real ReconcilePeerStreams with real gRPC in the bubble), several instances with streams breaking and moving.",
         "technique": "stateful property-based testing with rapid over harness-owned schedules (virtual time, gated stream calls, build-tag-guarded schedule points); registry-identity and leak oracles",
         "level": "exploration",
         "assumptions": [
-            "schedules are explored where the harness owns the boundary: delivery of a cancellation to a blocked Recv, completion of a stream-open call, the two vfYield points (UnregisterShard's unlock window, after the sender closed its channel); interleavings inside other critical sections are not enumerated",
+            "schedules are explored where the harness owns the boundary: delivery of a cancellation to a blocked Recv, completion of a stream-open call, the two vfYield points (UnregisterShard's unlock window, after the sender closed its channel), five log statements emitted outside any lock; interleavings inside other critical sections are not enumerated",
             "registrations never share a timestamp (the harness advances the virtual clock by 1ns between opens, as wall clocks do)",
             "'all streams have ended' includes the initiator side of superseded incarnations",
         ],
@@ -283,7 +285,7 @@ CHECKS = {
         "technique": "stateful property-based testing with rapid over fault sequences in virtual time (testing/synctest); resource-accounting invariants",
         "level": "fault_enumeration",
         "assumptions": [
-            "connProvider is a scripted in-package fake handing out net.Pipe ends; role-specific providers (TCP accept / dial with back-off) are covered only by the wiring worlds of C15",
+            "rapid part: connProvider is a scripted in-package fake handing out net.Pipe ends; tcp part: the role-specific providers (establisher.go / receiver.go) as NewGRPCMuxManager assembles them, over loopback TCP in real time with generous bounds (pool full within 45 s of a reachable peer, 150 s for a silently vanished peer to be dropped, 15 s for shutdown)",
             "healing is asserted as: N live sessions within 120 virtual seconds once every attempt meets a healthy peer",
             "yamux's global timer pool is emptied between bubbles (two GC cycles)",
         ],
@@ -299,6 +301,7 @@ CHECKS = {
         "technique": "stateful property-based testing with rapid in virtual time (testing/synctest); state-equality and RPC-outcome oracle",
         "level": "exploration",
         "assumptions": [
+            "real-time parts (notify order, dial overlap, silent peer) use watchdogs of 10-150 s; a watchdog expiry is a violation only when the state is verifiably wrong (lock held, session still registered), otherwise inconclusive",
             "behavioural bounds: a call issued >=20 virtual seconds after the last session change succeeds iff a session is registered (gRPC's reconnect back-off is 1 s base, capped at 10 s by the proxy's dial options); calls during churn may fail",
             "in-flight RPCs on a dying session may fail; only the serving session's membership in the registered set is asserted for successful calls",
         ],
